@@ -39,7 +39,8 @@ type SeqOp struct {
 }
 
 type SeqIn struct {
-	Ops []SeqOp `json:"ops"`
+	Ops   []SeqOp `json:"ops"`
+	Large int     `json:"large"` // > 0: every CRL of this case revokes that many thousand certificates (tens of megabytes)
 }
 
 type SeqRes struct {
@@ -97,6 +98,27 @@ func concBundle(b AbsBundle) *corecrl.Bundle {
 	out := &corecrl.Bundle{BaseCRL: seqCRL(b.Base, b.BaseFresh, false)}
 	if b.Delta != 0 {
 		out.DeltaCRL = seqCRL(b.Delta, b.DeltaFresh, true)
+	}
+	return out
+}
+
+// largeBundle: the same bundle with CRLs of thousands*1000 revoked certificates each (minted once per size, registered for idOf)
+func largeBundle(b AbsBundle, thousands int) *corecrl.Bundle {
+	mk := func(id int, fresh, delta bool) *x509.RevocationList {
+		k := fmt.Sprintf("%d/%v/%v/large%d", id, fresh, delta, thousands)
+		if v, ok := seqCRLs.Load(k); ok {
+			return v.(*x509.RevocationList)
+		}
+		nu := time.Now().Add(240 * time.Hour)
+		if !fresh {
+			nu = time.Now().Add(-time.Hour)
+		}
+		v, _ := seqCRLs.LoadOrStore(k, makeCRL(7, nu, thousands*1000+id, delta))
+		return v.(*x509.RevocationList)
+	}
+	out := &corecrl.Bundle{BaseCRL: mk(b.Base, b.BaseFresh, false)}
+	if b.Delta != 0 {
+		out.DeltaCRL = mk(b.Delta, b.DeltaFresh, true)
 	}
 	return out
 }
@@ -294,6 +316,9 @@ func runCRLSeq() int {
 				}
 			case "Set":
 				bundle = concBundle(op.B)
+				if in.Large > 0 {
+					bundle = largeBundle(op.B, in.Large)
+				}
 				if justExpired && !op.B.BaseFresh {
 					nu := time.Now().Add(1200 * time.Millisecond).Truncate(time.Second)
 					if nu.After(expiresAt) {
